@@ -259,7 +259,7 @@ func c08(c *Ctx) {
 			continue
 		}
 		var bad []string
-		for _, size := range []int64{0, 4, 504, 508, 1024, 65536, 262144, 262148, 1 << 20} {
+		for _, size := range c.grid([]int64{0, 4, 504, 508, 1024, 65536, 262144, 262148, 1 << 20}, 0, 4096, 4) {
 			words := size / 4
 			atom := func(v ssa.Value) (int64, bool) {
 				if call, ok := v.(*ssa.Call); ok && strings.HasSuffix(an.CalleeName(call.Common()), "littleEndian).Uint32") {
@@ -431,7 +431,7 @@ func c08Framing(c *Ctx, tr *an.Tracer) {
 				break
 			}
 		}
-		for _, L := range []int64{0, 4, 8, 500, 504, 508, 512, 1 << 16, 1 << 20, 0x123454 * 4} {
+		for _, L := range c.grid([]int64{0, 4, 8, 500, 504, 508, 512, 1 << 16, 1 << 20, 0x123454 * 4}, 0, 4096, 4) {
 			if hdrCall == nil {
 				bad = append(bad, "no Write of the header")
 				break
